@@ -1,8 +1,10 @@
 (* C67 OpenQASM export preserves the circuit.
    Static: the OpenQASM 2 model (Disc/QasmModel.v) over the hand-written qelib1.inc table (Tab/QasmTable.v).
    Generated (coq/Gen/C67, rebuilt from /repo on every run), one triple per entry K -> g of the repo's OPENQASM_GATES:
-     ob_k    : meqb 4 M_K (qt_scale (export_phase "K->g") (qelib_mat "g")) = true   -- extracted PennyLane matrix = phase * qelib1 gate,
-                                                                                      formal angles in the same argument order
+     ob_k    : export_equiv 4 meqb "K->g" M_K (qelib_mat "g") = true   -- extracted PennyLane matrix = phase * qelib1 gate (phase: the
+                 documented one of the pair, else 1 or e^{-/+ i theta_0/2}), formal angles in the same argument order
+     ob_k_doc: meqb 4 M_K (qt_scale (export_phase "K->g") (qelib_mat "g")) = true    -- the same with exactly the documented phase
+                 (a failure of ob_k_doc alone is reported as a note, not as a violation)
      ob_k_ph : ph_unit (export_phase_doc "K->g") = true
      ob_k_ar : qelib_arity "g" = Some (#parameters of K, #wires of K)
    Theorem export_obligation_means says what ob_k + ob_k_ph give over the reals.
@@ -69,6 +71,14 @@ Theorem export_obligation_means : forall M N ph,
     map (map (peval (aenv HZ DD th))) M = map (map (fun x => Cmult (cis a) (peval (aenv HZ DD th) x))) N.
 Proof. exact export_obligation_sound_l. Qed.
 Print Assumptions export_obligation_means.
+
+(* the form actually generated: export_equiv tries the documented phase of the pair, then 1 and e^{-/+ i theta_0/2} *)
+Theorem export_equiv_means : forall key M N,
+  export_equiv HZ meqb key M N = true ->
+  forall th : list R, exists a : R,
+    map (map (peval (aenv HZ DD th))) M = map (map (fun x => Cmult (cis a) (peval (aenv HZ DD th) x))) N.
+Proof. exact export_equiv_sound_l. Qed.
+Print Assumptions export_equiv_means.
 
 (* non-vacuity: a Bell-pair program with a rotation by a formal angle and two measurements has a denotation *)
 Example bell_program_denotes :
